@@ -20,7 +20,7 @@ import json
 # payload pools: id -> concrete payload.  Text payloads are valid JSON documents so that
 # receive_media on a text frame has a defined value (json.loads is the trusted decoder).
 TEXT = {1: '{"a": 1}', 2: '"éx\U0001f600"', 3: '[]'}
-DATA = {1: b'\x00\xff\x10', 2: b'', 3: b'M[1, 2]'}
+DATA = {1: b'\x00\xff\x10', 2: b'', 3: b'\x7f[1, 2]\n'}
 # objects for send_media / results of receive_media, by id
 MEDIA = {1: {'a': 1}, 2: 'éx\U0001f600', 3: []}
 BIN_MEDIA = {1: {'a': 1}, 2: [1, 2], 3: 'z'}          # media objects sent as BINARY
@@ -66,10 +66,9 @@ class Monitor:
             e.append('event is not a dict with a str type')
             return
         if t == 'websocket.accept':
-            self.accepts += 1
             if self.state != 'connecting':
                 e.append('accept in state %s' % self.state)
-            if self.accepts > 1:
+            if self.accepts >= 1:
                 e.append('second accept')
             sp = ev.get('subprotocol')
             if sp is not None and not isinstance(sp, str):
@@ -99,8 +98,7 @@ class Monitor:
             if set(ev) - {'type', 'bytes', 'text'}:
                 e.append('unknown keys in send')
         elif t == 'websocket.close':
-            self.closes += 1
-            if self.state == 'closed':
+            if self.state == 'closed' or self.closes >= 1:
                 e.append('close after close')
             c = ev.get('code', 1000)
             if not isinstance(c, int) or isinstance(c, bool):
@@ -117,9 +115,13 @@ class Monitor:
 
     def accepted_by_server(self, ev):
         t = ev.get('type')
-        if t == 'websocket.accept' and self.state == 'connecting':
-            self.state = 'open'
+        # only events the server took count: a send() that raised left the connection as it was
+        if t == 'websocket.accept':
+            self.accepts += 1
+            if self.state == 'connecting':
+                self.state = 'open'
         elif t == 'websocket.close':
+            self.closes += 1
             self.state = 'closed'
 
 
@@ -478,8 +480,8 @@ async def run_session_async(cfg, actions):
     skipped = 0
     for act in actions:
         if act['a'] == 'arrive':
-            if task.done():
-                skipped += 1
+            if task.done() or (act['k'] != 'disc' and srv.mon.state != 'open'):
+                skipped += 1        # a server has data frames only on an open connection
                 continue
             srv.arrive(client_event(act))
             await _settle()
